@@ -65,6 +65,9 @@ def cases(draw):
         "comm_load": [[draw(NUM) for _ in range(nc)] for _ in range(nc)],
         "route": [[draw(NUM) for _ in range(na)] for _ in range(na)],
         "departed_order": draw(st.integers(0, 119)),
+        # (computation, new host) moves applied to the same discovery object before a second query
+        "rehost": draw(st.lists(st.tuples(st.integers(0, 5), st.integers(0, 4)), min_size=1, max_size=2))
+        if draw(st.integers(0, 2)) == 0 else [],
     }
 
 
@@ -96,6 +99,9 @@ def rich_cases(draw):
         "comm_load": [[draw(NUM) for _ in range(nc)] for _ in range(nc)],
         "route": [[draw(NUM) for _ in range(na)] for _ in range(na)],
         "departed_order": draw(st.integers(0, 119)),
+        # (computation, new host) moves applied to the same discovery object before a second query
+        "rehost": draw(st.lists(st.tuples(st.integers(0, 5), st.integers(0, 4)), min_size=1, max_size=2))
+        if draw(st.integers(0, 2)) == 0 else [],
     }
 
 
@@ -112,11 +118,42 @@ def _assignments(n):
 
 
 def _values(rel, names, bits):
+    """Value of the constraint through keyword arguments and through an assignment dict; the second one is taken
+    in another key order and, for small scopes, after slicing the last variable away first (what MGM does): any
+    disagreement comes back as a pair of different values."""
     asg = dict(zip(names, bits))
-    return rel(**asg), rel.get_value_for_assignment(dict(asg))
+    v1 = rel(**asg)
+    v2 = rel.get_value_for_assignment(dict(asg))
+    if v1 == v2 and len(names) >= 2:
+        v2 = rel(**dict(reversed(list(asg.items()))))
+        if v1 == v2 and len(names) <= 5:
+            rest = {n: b for n, b in asg.items() if n != names[-1]}
+            v2 = rel.slice({names[-1]: asg[names[-1]]})(**rest)
+    return v1, v2
 
 
 def run_case(case):
+    shared = {}
+    out = _run(case, shared)
+    moves = case.get("rehost") or []
+    if out.ok and moves:
+        # the same Discovery object, same departed agents, after some computations were re-hosted (a repair, a
+        # redeployment): nothing may be remembered from the first query
+        comps = [dict(c) for c in case["comps"]]
+        for ci, ai in moves:
+            comps[ci % len(comps)]["host"] = ai % case["n_agents"]
+        if [c["host"] for c in comps] != [c["host"] for c in case["comps"]]:
+            out2 = _run(dict(case, comps=comps), shared)
+            out2.labels.append("requery-after-rehosting")
+            out2.nontrivial = out.nontrivial or out2.nontrivial
+            if not out2.ok:
+                out2.why = "[second query on the same discovery object, after re-hosting to %r] %s" % (
+                    [c["host"] for c in comps], out2.why)
+            return out2
+    return out
+
+
+def _run(case, shared):
     na = case["n_agents"]
     agents = AGENTS[:na]
     comps = case["comps"]
@@ -161,14 +198,21 @@ def run_case(case):
                                            create_agent_hosting_constraint, create_computation_hosted_constraint)
             from pydcop.reparation.removal import (_removal_candidate_agents, _removal_candidate_agt_info,
                                                    _removal_orphaned_computations)
-            disc = Discovery("orchestrator", "addr_orchestrator")
-            for a in agents:
-                disc.register_agent(a, "addr_" + a, publish=False)
-            for c in cnames:
-                disc.register_computation(c, host[c], publish=False)
-            for c in cnames:
-                for a in sorted(replicas[c]):
-                    disc.register_replica(c, a, publish=False)
+            if "disc" in shared:
+                disc = shared["disc"]
+                for c in cnames:
+                    if disc.computation_agent(c) != host[c]:
+                        disc.unregister_computation(c, publish=False)
+                        disc.register_computation(c, host[c], publish=False)
+            else:
+                disc = shared["disc"] = Discovery("orchestrator", "addr_orchestrator")
+                for a in agents:
+                    disc.register_agent(a, "addr_" + a, publish=False)
+                for c in cnames:
+                    disc.register_computation(c, host[c], publish=False)
+                for c in cnames:
+                    for a in sorted(replicas[c]):
+                        disc.register_replica(c, a, publish=False)
             nodes = []
             for i, c in enumerate(cnames):
                 ls = [Link([cnames[j] for j in l]) for l in case["links"] if i in l]
